@@ -16,12 +16,12 @@ import sys
 import tempfile
 
 from vf import simrt
-from vf.core import Check, CaseResult, U, PY, VERIF, REPO
+from vf.core import Check, CaseResult, HarnessError, U, PY, VERIF, REPO
 
 # 'abandon': a private FileLock object on the same path is acquired, used and then simply dropped
 # (garbage collected while held) instead of being released
-MODES = ['with', 'acq', 'nb', 'timed', 'timed0', 'ctx', 'ctxnb', 'abandon', 'force', 'stale']
-WEIGHTS = [4, 4, 4, 4, 2, 3, 2, 3, 2, 3]
+MODES = ['with', 'acq', 'nb', 'timed', 'timed0', 'ctx', 'ctxnb', 'abandon', 'force', 'stale', 'nestraise']
+WEIGHTS = [4, 4, 4, 4, 2, 3, 2, 3, 2, 3, 2]
 
 
 def gen(rng):
@@ -135,6 +135,26 @@ class FlockHarness:
                                     section(name, o, rd)
                             except TimeoutError:
                                 emit('t_ret', name, False)
+                                emit('refused', name, rd['obj'], mode)
+                            continue
+                        if mode == 'nestraise' and not scen['reentrant']:
+                            mode = 'with'
+                        if mode == 'nestraise':
+                            # a nested block of the same reentrant lock is left by an exception that the outer block handles:
+                            # the outer level is still held afterwards
+                            try:
+                                with o:
+                                    try:
+                                        if rd['nest']:
+                                            with o:
+                                                raise HarnessError('inner block fails')
+                                        else:
+                                            with o.acquire_ctx(timeout=rd['tau']):
+                                                raise HarnessError('inner block fails')
+                                    except HarnessError:
+                                        emit('inner_block_failed', name)
+                                    section(name, o, dict(rd, nest=False))
+                            except TimeoutError:
                                 emit('refused', name, rd['obj'], mode)
                             continue
                         if mode == 'with':
